@@ -224,7 +224,8 @@ class JointDistribution:
         if isinstance(density, EvaluatedDensity):
             raise ValueError("Cannot add the sum of all evaluated densities to an EvaluatedDensity.")
 
-        density._constant += self._sum_evaluated_densities()
+        # Rebind instead of in-place add: the constant may be an ndarray shared with copies
+        density._constant = density._constant + self._sum_evaluated_densities()
         return density
 
     def _as_stacked(self) -> _StackedJointDistribution:
